@@ -1297,6 +1297,9 @@ REPLACE_MAP_ROWS = [
     "print *, 'a(b', \"c)d\", (e), ')'",
     "v = 'F2PY_EXPR_TUPLE_1' // f(p+q)",
     "u = ''",
+    "r = tol('1.0e-3') + 1.0e-3",
+    "q = x - 2.5D+4 * f('2.5D+4')",
+    "p = 1.0e-3 + 1.0e-3 * 1.0E-3",
 ]
 
 
@@ -1342,9 +1345,41 @@ def replace_map_table_rule(m, rid):
         # what is visible: between a pair of parentheses / quotes only a placeholder or a plain name remains
         import re as _re
         leak = [g_ for g_ in _re.findall(r"\(([^()]*)\)", mapped) if _re.search(r"[,'\"()]", g_)]
+        # a real literal with a signed exponent must not stay visible: its sign would be taken for an operator
+        leak += _re.findall(r"(?<![\w.])(?:\d+[.]?\d*|[.]\d+)[edED][+-]\d+", mapped)
         ok = ok and not leak
         r.ob(ok, "%r -> %r" % (line, mapped) if r.obligations % 4 == 0 else None)
         if not ok:
             r.fail("string_replace_map|table|%s" % line, "string_replace_map(%r) gives %r, which its inverse turns into %r%s: text is "
                    "invented, lost or left exposed" % (line, mapped, back, "; visible group content %r" % leak[0] if leak else ""), m.loc(f))
+    return r
+
+
+def rule_item_ctor_agreement(m, rid):
+    """Sibling agreement: the reader builds its items through four helpers; state one of the statement-bearing helpers records on the reader
+    (`self.flag = ...`) must be recorded by its siblings too, or consumers of that state see directive / multi-line items as 'no code yet'."""
+    r = RuleResult(rid, "the reader's item constructors (line_item, multiline_item, cpp_directive_item; comment_item apart) agree on what they "
+                        "record on the reader: a flag set for one kind of statement-bearing item and not for another makes the parser treat "
+                        "a source that starts with the other kind as empty (the caller then never makes progress)")
+    r.floor = 3
+    helpers = {}
+    for nm in ("line_item", "multiline_item", "cpp_directive_item", "comment_item"):
+        f = m.funcs.get((m.modfile[RF], "FortranReaderBase." + nm))
+        if f is None:
+            r.error("FortranReaderBase.%s vanished" % nm)
+            return r
+        helpers[nm] = (f, {t.attr for n in A.body_nodes(f.node) if isinstance(n, (ast.Assign, ast.AugAssign))
+                           for t in (n.targets if isinstance(n, ast.Assign) else [n.target])
+                           if isinstance(t, ast.Attribute) and isinstance(t.value, ast.Name) and t.value.id == "self"})
+    code = ("line_item", "multiline_item", "cpp_directive_item")
+    union = set().union(*(helpers[n][1] for n in code))
+    for nm in code:
+        r.instances += 1
+        missing = sorted(union - helpers[nm][1])
+        r.ob(not missing, "%s records %s" % (nm, sorted(helpers[nm][1]) or "nothing"))
+        if missing:
+            who = [n for n in code if missing[0] in helpers[n][1]][0]
+            r.fail("%s|ctor-state|%s" % (nm, missing[0]), "FortranReaderBase.%s records self.%s on the reader but its sibling %s does not: code that "
+                   "reads the flag (e.g. 'only comments so far, nothing to match') takes a source whose first statement-bearing item is "
+                   "built by %s for an empty one" % (who, missing[0], nm, nm), m.loc(helpers[nm][0]))
     return r
